@@ -54,9 +54,9 @@ type vkFault struct {
 }
 
 type vkReqLog struct {
-	Type     byte
-	ShardIDs []uint64
-	Fault    string
+	Type               byte
+	ShardIDs           []uint64
+	Fault              string
 	CutOnFrameBoundary bool
 }
 
@@ -436,6 +436,18 @@ func (cl *vkCluster) waitAll(pred func(mc *meta.Client) bool) error {
 	}
 }
 
+// syncMeta waits until every node's metadata cache has reached the newest index any node has
+// seen (shard groups created by a write on one node reach the others by long polling).
+func (cl *vkCluster) syncMeta() error {
+	var max uint64
+	for _, nd := range cl.nodes {
+		if d := nd.srv.MetaClient.Data(); d.Index > max {
+			max = d.Index
+		}
+	}
+	return cl.waitAll(func(mc *meta.Client) bool { d := mc.Data(); return d.Index >= max })
+}
+
 func (cl *vkCluster) dropDB(db string) {
 	cl.nodes[0].srv.MetaClient.DropDatabase(db)
 	for _, nd := range cl.nodes {
@@ -524,3 +536,19 @@ func vkMkdirTemp(prefix string) string {
 	}
 	return d
 }
+
+var (
+	vkOnce    sync.Once
+	vkShared  *vkCluster
+	vkErr     error
+	vkCaseSeq int
+)
+
+func vkSharedCluster() (*vkCluster, error) {
+	vkOnce.Do(func() {
+		dir := vkMkdirTemp("bedK")
+		vkShared, vkErr = vkStartCluster(dir, 3, 2*time.Second)
+	})
+	return vkShared, vkErr
+}
+
